@@ -8,6 +8,20 @@ type PropertyDef struct {
 
 // Properties is the registry of E2 checks.
 var Properties = map[string]PropertyDef{
+	"C05": {Cases: C05Cases, Config: func(tier string) Config {
+		c := Config{
+			Functions: []string{"feldman.NewScheme", "feldman.Scheme.Deal", "feldman.Scheme.Verify", "feldman.NewLiftedDealerFunc", "feldman.LiftedDealerFunc.ShareOf", "feldman.LiftShare", "feldman.NewVerificationVector", "feldman.VerificationVector.Op", "feldman.Scheme.ReconstructInTheExponent",
+				"pedersen.NewScheme", "pedersen.Scheme.Deal", "pedersen.Scheme.Verify", "pedersen.LiftShare", "pedersen.Scheme.ReconstructAndVerify", "pedersen.Share.Add", "mat.LeftAction", "mat.Lift", "pedersencom.NewCommitmentKeyUnchecked/CommitWithWitness"},
+			Bounds:  map[string]any{"policies": "≤6 per family (quick) / whole corpus (thorough), every holder", "share and verification vector": "fully symbolic (arbitrary) in the iff clauses", "tampering offset δ": "symbolic, δ≠0", "pedersen h": "arbitrary group element ∉ {identity, g} (symbolic discrete log)"},
+			Assumes: []string{"policies/IDs/MSP matrices concrete per case", "group modelled as (Z/q,+) (isomorphism), q the real group order"},
+			Outside: []string{"real curve arithmetic (replay only)", "more than two combined dealings"},
+		}
+		if tier == "thorough" {
+			c.Moduli = []string{"secp256k1", "ed25519"}
+			c.Cross = "cvc5"
+		}
+		return c
+	}},
 	"C02": {Cases: C02Cases, Config: func(tier string) Config {
 		c := Config{
 			Functions: []string{"kw.NewScheme", "kw.Scheme.Deal/DealAndRevealDealerFunc", "kw.NewDealerFunc", "kw.Scheme.Reconstruct", "kw.Scheme.CanReconstruct", "kw.Scheme.ConvertShareToAdditive", "kw.Share.Add/ScalarMul",
